@@ -318,6 +318,58 @@ def run(report, p):
     if n_sites < 5:
         raise AnalysisError("fewer than 5 call sites reaching the loader")
 
+    # ------------------------------------------------------------------ R5.8
+    r8 = report.rule(
+        "R5.8",
+        "no chain entry is lost between the chain file and the verification loop: the chain reader hands every closed <hashlist> element to append_generation under its dispatch "
+        "tests only, append_generation appends on every path, and nothing else removes / reorders / replaces the generation list",
+        3,
+    )
+    creader = p.funcs.get("ascmhl.chain_xml_parser.parse")
+    appg = p.funcs.get("ascmhl.chain.MHLChain.append_generation")
+    if creader is None or appg is None:
+        raise AnalysisError("chain reader / MHLChain.append_generation not found")
+    ga = cfg_of(appg)
+    apps = [ga.node_for(c) for c, tg in p.calls[appg.qual] if isinstance(c.func, ast.Attribute) and c.func.attr == "append" and norm(c.func.value).endswith(".generations") and c.args and norm(c.args[0]) == appg.params[1]]
+    r8.instance(appg, appg.node, "append_generation")
+    path = ga.find_path(ga.entry, {ga.exit.id}, avoid={a.id for a in apps}) if apps else [ga.entry]
+    r8.check(bool(apps) and path is None, appg, appg.node, "append_generation can return without appending the entry: a chain entry that is skipped here is never compared with its manifest (a modified or removed manifest of that generation goes unnoticed)", witness=ga.fmt_path(path) if path and apps else None, construct="append_generation skips entries")
+    gr = cfg_of(creader)
+    sites = [c for c, tg in p.calls[creader.qual] if appg.qual in tg]
+    if not sites:
+        raise AnalysisError("chain reader does not call append_generation")
+    for c in sites:
+        r8.instance(creader, c, norm(c)[:70])
+        extra = []
+        for t, l in gr.control_deps(gr.node_for(c), through_loops=False):
+            if t.kind != "test":
+                continue
+            tt = norm(t.ast).replace('"', "'")
+            if tt.startswith(("event ==", "tag ==", "tag in ", "type(current_object) is ")) or tt in ("current_object", "not current_object", "current_object is not None", "current_object is None"):
+                continue
+            extra.append((tt, l))
+        r8.check(not extra, creader, c, f"the chain reader keeps a parsed <hashlist> entry only under the additional condition {extra}: dropped entries are never verified", construct=f"chain entry kept under {extra}")
+    nmod = 0
+    for fq, f in p.funcs.items():
+        if f.module.name in unshipped:
+            continue
+        for n in walk_no_nested(f.node):
+            bad = None
+            if isinstance(n, ast.Call) and isinstance(n.func, ast.Attribute) and n.func.attr in ("pop", "remove", "clear", "sort", "reverse", "insert") and isinstance(n.func.value, ast.Attribute) and n.func.value.attr == "generations":
+                bad = f".{n.func.attr}()"
+            elif isinstance(n, (ast.Assign, ast.AugAssign, ast.Delete)):
+                for t in (n.targets if isinstance(n, (ast.Assign, ast.Delete)) else [n.target]):
+                    b = t.value if isinstance(t, ast.Subscript) else t
+                    if isinstance(b, ast.Attribute) and b.attr == "generations" and not (f.name == "__init__" and isinstance(t, ast.Attribute)):
+                        bt = p.etype(b.value, f)
+                        if bt is None or (bt[0] == "C" and bt[1].endswith("MHLChain")):
+                            bad = "assignment / deletion"
+            if bad:
+                nmod += 1
+                r8.instance(f, n, norm(n)[:70])
+                r8.check(False, f, n, f"the chain's generation list is modified by {bad} outside append_generation: entries can disappear or change place before they are verified", construct=f"generation list modified: {norm(n)[:60]}")
+    r8.instance(None, None, f"{nmod} other modification site(s) of MHLChain.generations")
+
     # ---- rules shared with other properties (same mechanism, same rule, reported under every property it can break)
     include_rules(report, p, 'c01', ['R1.1', 'R1.4'], 'manifest tampering is detected by the c4 digest of the complete manifest file')
     report.not_decided += ["that every byte edit changes the c4 digest (trusted)", "behaviour on chain files not produced by the tool", "concrete exit codes observed at run time"]
